@@ -462,6 +462,9 @@ type gen11 struct {
 func (g *gen11) doc() doc11 {
 	for tries := 0; ; tries++ {
 		k := c11Kinds[g.rng.Intn(len(c11Kinds))]
+		if !g.unique {
+			k = c11Kinds[g.rng.Intn(6)] // few kinds: id collisions become likely
+		}
 		d := doc11{API: k.API, Kind: k.Kind, Name: g.rng.Pick(c11Names), NS: g.rng.Pick(c11Namespaces)}
 		key := d.Kind + "/" + d.Name
 		if g.unique && g.used[key] && tries < 30 {
@@ -572,7 +575,7 @@ func (g *gen11) sortOpt(allowCustom bool) *sort11 {
 }
 
 func genTree11(rng *Rng, rich bool, depth int) *dir11 {
-	g := &gen11{rng: rng, rich: rich, unique: rng.Chance(75), used: map[string]bool{}}
+	g := &gen11{rng: rng, rich: rich, unique: rng.Chance(70), used: map[string]bool{}}
 	d := g.dir(depth, true)
 	d.Sort = g.sortOpt(true)
 	return d
@@ -797,10 +800,33 @@ type expect11 struct {
 	Labels  map[string]string
 }
 
-func skipKind(d doc11) bool {
-	g, _ := splitGV(d.API)
-	return d.Kind == "CustomResourceDefinition" || d.Kind == "Namespace" || (d.Kind == "APIService" && g == "apiregistration.k8s.io")
+// skipSide: is the document's type on the runtime skip list of the prefix (suffix) transformer?
+// The lists are read from the implementation (verif hook), like the model reads the generated tables.
+var skipLists11 struct {
+	loaded         bool
+	prefix, suffix types.FsSlice
 }
+
+func skipSide(d doc11, suffix bool) bool {
+	if !skipLists11.loaded {
+		skipLists11.prefix, skipLists11.suffix = krusty.VerifC11NameSkipLists()
+		skipLists11.loaded = true
+	}
+	l := skipLists11.prefix
+	if suffix {
+		l = skipLists11.suffix
+	}
+	g, v := splitGV(d.API)
+	gvk := resid.Gvk{Group: g, Version: v, Kind: d.Kind}
+	for i := range l {
+		if gvk.IsSelected(&l[i].Gvk) {
+			return true
+		}
+	}
+	return false
+}
+
+func skipKind(d doc11) bool { return skipSide(d, false) || skipSide(d, true) }
 
 func (d *dir11) expectations(pfx, sfx string, nsDirective bool, outer []map[string]string, acc map[string]expect11) {
 	p := pfx + d.Prefix
@@ -820,8 +846,11 @@ func (d *dir11) expectations(pfx, sfx string, nsDirective bool, outer []map[stri
 				continue
 			}
 			ex := expect11{Name: dc.Name, Labels: map[string]string{}}
-			if !skipKind(dc) {
-				ex.Name = p + dc.Name + s
+			if !skipSide(dc, false) {
+				ex.Name = p + ex.Name
+			}
+			if !skipSide(dc, true) {
+				ex.Name = ex.Name + s
 			}
 			if dc.Kind == "Namespace" && nsDirective {
 				// the namespace directive also renames Namespace objects (property C09): no claim here
@@ -1130,7 +1159,7 @@ func tableCheck11(r *Run) {
 func runC11(r *Run, rng *Rng, tier string) error {
 	nLess, nModel, nOracleSimple, nOracleRich, maxPerms := 1500, 300, 15, 45, 16
 	if tier == "thorough" {
-		nLess, nModel, nOracleSimple, nOracleRich, maxPerms = 16000, 4000, 400, 1500, 0
+		nLess, nModel, nOracleSimple, nOracleRich, maxPerms = 16000, 4000, 150, 500, 0
 	}
 	r.Meta.Rule = "less: id pairs over adversarial group/version/kind/namespace/name pools (place holders ~G ~V ~K ~X ~N, separators _ |, bytes >= 0x7f, empty fields, " +
 		"ranked/unranked kinds, Namespace kind), 60% near-equal pairs, 20% custom order lists; build: trees of 1-3 layers (nested and sibling bases), 0-4 entries per resources list, " +
